@@ -324,7 +324,8 @@ Lemma c16_step_other : forall o oper st, other_op oper = true ->
   c16_step o oper st =
   match num_events [] (o_expect o) (st_events st) with
   | Some e' => if ctrl_clause (o_sp o) oper st
-               then Some (mkOst e' (o_sp o) (match st_snap st with Some sn => sn_ctrl sn | None => o_ctrl o end))
+               then Some (mkOst e' (o_sp o) (match st_snap st with Some sn => sn_ctrl sn | None => o_ctrl o end)
+                                (match st_snap st with Some sn => sn_state sn | None => o_state o end))
                else None
   | None => None
   end.
